@@ -94,6 +94,9 @@ Definition emit (s : state) (bs : list byte) : state := set_out s (rev_append bs
 Definition as_arith (v : value) : value := match v with VEnum z => VInt z | _ => v end.
 Definition is_arr (v : value) : bool := match v with VRef KArr _ => true | _ => false end.
 Definition idx_of (v : value) : Z := match v with VInt z => z | _ => 0%Z end.
+(* index operand of OP_ARR_GET / SET / REMOVE: the range-checking code also accepts an enum value as its integer *)
+Definition aidx_of (c : cfg) (v : value) : Z :=
+  match v with VInt z => z | VEnum z => if fx_arr c then z else 0%Z | _ => 0%Z end.
 
 (* implicit / explicit return: pops result and locals, pops the frame *)
 Definition do_return (s : state) (fr : frame) (frs : list frame) (falloff : bool) : sres :=
@@ -130,8 +133,8 @@ Definition cmp_op (s : state) (f : Z -> bool) : sres :=
 
 Definition arith_op (c : cfg) (s : state) (o : N) : sres :=
   let '(b0, k1) := pop (st_stack s) in let '(a0, k2) := pop k1 in
-  let a := if o =? 36 then a0 else as_arith a0 in      (* OP_MOD does not coerce enums *)
-  let b := if o =? 36 then b0 else as_arith b0 in
+  let a := as_arith a0 in      (* ADD SUB MUL DIV MOD all coerce enum operands to int *)
+  let b := as_arith b0 in
   match a, b with
   | VInt x, VInt y =>
       if o =? 32 then SNext (set_stack s (VInt (wrap64 (x + y)) :: k2))
@@ -205,7 +208,7 @@ Definition exec_instr (c : cfg) (m : module) (s0 : state) (fr : frame) (frs : li
           end
   | 32 | 33 | 34 | 35 | 36 => arith_op c s (op i)
   | 37 => let '(a, k1) := pop k in
-          match a with VInt x => SNext (set_stack s (VInt (wrap64 (- x)) :: k1)) | _ => SErr E_TYPE s end
+          match as_arith a with VInt x => SNext (set_stack s (VInt (wrap64 (- x)) :: k1)) | _ => SErr E_TYPE s end
   | 40 => let '(b, k1) := pop k in let '(a, k2) := pop k1 in SNext (set_stack s (VBool (val_equal a b) :: k2))
   | 41 => let '(b, k1) := pop k in let '(a, k2) := pop k1 in SNext (set_stack s (VBool (negb (val_equal a b)) :: k2))
   | 42 => cmp_op s (fun r => r <? 0)%Z
@@ -292,7 +295,7 @@ Definition exec_instr (c : cfg) (m : module) (s0 : state) (fr : frame) (frs : li
           | VRef KArr l =>
               match hget s KArr l with
               | Some (OArr t els) =>
-                  match vm_arr_get c (N.of_nat (length els)) (idx_of iv) with
+                  match vm_arr_get c (N.of_nat (length els)) (aidx_of c iv) with
                   | AElem j => SNext (set_stack s (nth (N.to_nat j) els VVoid :: k2))
                   | ATrap => SErr E_OOB (set_stack s k2)
                   | _ => SNext (set_stack s (VVoid :: k2))
@@ -305,7 +308,7 @@ Definition exec_instr (c : cfg) (m : module) (s0 : state) (fr : frame) (frs : li
           | VRef KArr l =>
               match hget s KArr l with
               | Some (OArr t els) =>
-                  match vm_arr_set c (N.of_nat (length els)) (idx_of iv) with
+                  match vm_arr_set c (N.of_nat (length els)) (aidx_of c iv) with
                   | AElem j => SNext (hset (set_stack s (av :: k3)) l (OArr t (set_nth els (N.to_nat j) v)))
                   | ATrap => SErr E_OOB (set_stack s k3)
                   | _ => SNext (set_stack s (av :: k3))
@@ -340,7 +343,7 @@ Definition exec_instr (c : cfg) (m : module) (s0 : state) (fr : frame) (frs : li
           | VRef KArr l =>
               match hget s KArr l with
               | Some (OArr t els) =>
-                  match vm_arr_remove c (N.of_nat (length els)) (idx_of iv) with
+                  match vm_arr_remove c (N.of_nat (length els)) (aidx_of c iv) with
                   | AElem j => SNext (hset (set_stack s (av :: k2)) l (OArr t (remove_nth els (N.to_nat j))))
                   | ATrap => SErr E_OOB (set_stack s k2)
                   | _ => SNext (set_stack s (av :: k2))
